@@ -375,3 +375,39 @@ def c04_5(ctx):
     d = single_assign(fn, 't')
     if d is None or not (isinstance(d, ast.Call) and call_name(d) == 'dt' and U(kw(d, 'dialect') or ast.Constant(0)) == 'dialect'):
         ctx.fail(fn, fn.node, 'ymd does not parse through dt with the same dialect')
+
+
+@obligation('C04.6', 'MATCH (lossless default format)', '_dates:dt2str',
+            'dt(dt2str(t)) == t: the compact yyyymmdd form drops the whole time of day, so it may be chosen only when t is exactly midnight (microseconds included); every other instant must use the lossless ISO form',
+            axioms=('A1',))
+def c04_6(ctx):
+    fn = ctx.repo.fn('_dates:dt2str')
+    t = fn.params[0]
+    outer = [s for s in fn.body if isinstance(s, ast.If) and N(s.test) == NS('fmt is None')]
+    ctx.need(len(outer) == 1, 'default-format branch (fmt is None) of dt2str not found')
+    inner = [s for s in outer[0].body if isinstance(s, ast.If)]
+    ctx.need(len(inner) == 1, 'date-only test of dt2str not found')
+    test = inner[0].test
+    ctx.count(1, fn.where(inner[0]))
+    compact = [r for r in inner[0].body if isinstance(r, ast.Return) and '%Y%m%d' in U(r.value)]
+    lossless = [r for r in inner[0].orelse if isinstance(r, ast.Return) and 'isoformat' in U(r.value)]
+    if not compact or not lossless:
+        compact2 = [r for r in inner[0].orelse if isinstance(r, ast.Return) and '%Y%m%d' in U(r.value)]
+        lossless2 = [r for r in inner[0].body if isinstance(r, ast.Return) and 'isoformat' in U(r.value)]
+        if compact2 and lossless2:
+            test = negate(test)
+        else:
+            ctx.fail(fn, inner[0], 'default format no longer chooses between the compact date form and the lossless ISO form')
+            return
+    tn = N(test)
+    full = (NS('%s == today(%s)' % (t, t)), NS('%s == ymd(%s)' % (t, t)), NS('%s == datetime.datetime(%s.year, %s.month, %s.day)' % (t, t, t, t)))
+    if tn in full:
+        return
+    comps = {a.attr for a in ast.walk(test) if isinstance(a, ast.Attribute) and U(a.value) == t}
+    if comps and 'time' not in comps:
+        missing = {'hour', 'minute', 'second', 'microsecond'} - comps
+        if missing:
+            ctx.fail(fn, inner[0], 'the date-only test `%s` ignores %s: an instant at midnight with a non-zero %s is written as yyyymmdd and does not read back' % (U(test), sorted(missing), sorted(missing)[0]),
+                     witness='t = datetime(2020, 1, 1, 0, 0, 0, 5); dt(dt2str(t)) != t')
+        return
+    raise AnalysisError('unrecognised date-only test in dt2str: %s' % U(test))
